@@ -30,7 +30,8 @@ SIG_LMP_SAMELINE = "C19:lammps:substring-on-a-requested-line"
 # behaviour of the UNCHANGED /repo that a predicate rejects and that is reported but not yet a recorded finding:
 # a failure with one of these signatures is written into the evidence file instead of being a VIOLATION.
 # (SIG_LMP_SAMELINE was pending until /repo 48a6c1e repaired it; it is a recorded, fixed finding now.)
-PENDING_FINDINGS = set()
+SIG_MDP_DASH = "C19:mdp:dash-underscore-key"
+PENDING_FINDINGS = {SIG_MDP_DASH}
 
 
 def _imports():
@@ -124,6 +125,20 @@ def kw_of(line):
     return before, before.strip()
 
 
+def mdp_dash_predicate(tmpl, settings):
+    """GROMACS reads '-' and '_' in a parameter name alike (`gen_vel` = `gen-vel`; the engine itself requests `gen_vel`,
+    `ref-t`, `gen-temp`).  The editor compares names literally: a requested key that the template spells the other way is
+    not edited but appended, so the file defines the parameter twice.  PENDING (reported, not a recorded finding)."""
+    seen = {kw_of(l)[1] for l in lines_nl(tmpl)} - {None}
+    norm = {k.replace("-", "_") for k in seen}
+    for k in settings:
+        if k and k not in seen and k.replace("-", "_") in norm:
+            other = sorted(x for x in seen if x.replace("-", "_") == k.replace("-", "_"))
+            return (SIG_MDP_DASH, f"requested {k!r} is appended although the template has {other!r} (the same GROMACS "
+                    "parameter): the edited file defines it twice and the template's entry keeps its old value")
+    return None
+
+
 def mdp_clean_settings(settings):
     for k, v in settings.items():
         v = str(v)
@@ -188,7 +203,7 @@ MDP_LINES = [
     "; nsteps = 3\n", "; comment\n", "\n", "dt = 0.002\n", "define = -DA=1 -DB=2\n", "ref-t = 300 300\n",
     "title\n", "= 5\n", "gen_vel = yes ; c = d\n",
 ]
-MDP_KEYS = ["nsteps", "nst", "dt", "gen_vel", "tc-grps", "", "ref-t"]
+MDP_KEYS = ["nsteps", "nst", "dt", "gen_vel", "tc-grps", "", "ref-t", "ref_t", "gen-vel"]
 MDP_VALS = [10, 0, "no", 0.002, "a b", "x = y", "", " 5 ", -1, 0.0, False, "0", -0.0]
 
 
@@ -565,6 +580,9 @@ def _run(ctx, box, EngineBase, write_for_run):
         r = mdp_predicates(box, EngineBase, t, s, out=code[k])
         if r is not None:
             note_fail(fails, r, {"part": PART, "fn": "mdp", "template": t, "settings": {a: str(b) for a, b in s.items()}})
+        r = mdp_dash_predicate(t, s)
+        if r is not None:
+            note_fail(fails, r, {"part": PART, "fn": "mdp-dash", "template": t, "settings": {a: str(b) for a, b in s.items()}})
         if k % 4001 == 0:
             ctx.sample({"fn": "_modify_input", "template": t, "settings": {a: str(b) for a, b in s.items()}, "code": code[k]})
     ctx.count(len(mal), branch="mdp:malformed-settings(model-vs-code only)")
@@ -654,6 +672,9 @@ def replay_part(ctx, obj):
     try:
         if r.get("fn") == "mdp":
             res = mdp_predicates(box, EngineBase, r["template"], r["settings"])
+        elif r.get("fn") == "mdp-dash":
+            print("replay: pending finding (not counted):", mdp_dash_predicate(r["template"], r["settings"]))
+            res = None
         elif r.get("fn") == "lammps-word":
             res = lmp_word_predicate(r["template"], r["settings"],
                                      wfr_code(box, write_for_run, r["template"], r["settings"]))
